@@ -163,8 +163,13 @@ CHECKS = {
                 "whatever decoded) must return under recover(). TestC19Txn: valid generated transactions against a populated database "
                 "are corrupted the same way at JSON level (plus ~45 incomplete/degenerate operations spliced in), decoded and executed: "
                 "no panic, a failed request leaves every table unchanged, Commit never fails after Transact succeeded, a select on "
-                "every table still answers. TestC19Wire (L2): the same requests are sent raw to a server followed by echo. thorough adds "
-                "native go fuzzing of the decoders. Non-trivial = every executed case (each is a distinct corrupted input); distinct = "
+                "every table still answers. TestC19Wire: the same requests are sent as raw JSON-RPC transact calls to a listening server with a "
+                "monitoring peer attached, each followed by an echo on the same connection and a select on every table (a panic in a connection "
+                "goroutine kills the test process: the case in flight is written to disk beforehand and reported by the driver). thorough adds "
+                "native go fuzzing (go test -fuzz, 180 s x 8 workers per target): FuzzC19Decode (target selector byte + bytes, seeded with 8 valid "
+                "encodings of each of the 16 wire types and the hostile constants) and FuzzC19Txn (a JSON array of operations executed on a populated "
+                "database with every column kind, strong/weak/map references and an index; seeded with generated valid transactions and the "
+                "degenerate operations; same oracles as TestC19Txn). Non-trivial = every executed case (each is a distinct corrupted input); distinct = "
                 "hash of (target, input text).",
         "assumptions": COMMON_ASSUMPTIONS + [
             "a wait without timeout (or with a positive one) is not sent: RFC 7047 5.2.6 lets it block, and the single-threaded "
@@ -179,6 +184,13 @@ CHECKS = {
         "tests": [
             {"name": "TestC19Decode", "quick": 120000, "thorough": 8000000},
             {"name": "TestC19Txn", "quick": 6000, "thorough": 400000},
+            {"name": "TestC19Wire", "quick": 2400, "thorough": 120000},
+            # the seed corpora of the native fuzz targets run as ordinary tests in both tiers
+            {"name": "FuzzC19Decode", "kind": "plain", "quick": 1, "thorough": 1, "shards": {"quick": 1, "thorough": 1}},
+            {"name": "FuzzC19Txn", "kind": "plain", "quick": 1, "thorough": 1, "shards": {"quick": 1, "thorough": 1}},
+            # coverage-guided campaigns (thorough tier only; not seedable: a saved crasher is the reproducible unit)
+            {"name": "native-fuzz", "kind": "fuzz", "targets": ["FuzzC19Decode", "FuzzC19Txn"], "fuzztime": "180s", "parallel": 8,
+             "quick": None, "thorough": 1},
         ],
     },
     "C05": {
@@ -248,7 +260,9 @@ CHECKS = {
                 "update to b, current = a) records no update iff a = b; the Modify row names exactly the changed columns and, applied to a by the "
                 "harness' own update2 rules, gives b; ModelUpdates.AddRowUpdate2(Modify sent through JSON) on a copy of a gives b; neither step "
                 "changes the model handed in (reflect.DeepEqual with a reflective deep copy taken before); an arbitrary generated difference "
-                "applied by the library equals the harness' applier (toggle / add-replace-remove / overwrite). Non-trivial = a != b with "
+                "applied by the library equals the harness' applier (toggle / add-replace-remove / overwrite). The same checks run for a mutate "
+                "operation of 1-4 mutations (repeated columns, mutations without effect, deletes that miss) whose net effect b is computed by refdb. "
+                "Non-trivial = a != b with "
                 "overlapping elements or b = default, or a peer difference that changes a; distinct = hash of (types, a, b shapes).",
         "assumptions": COMMON_ASSUMPTIONS + ["immutable columns are not generated here (a difference on them is rejected by design)"],
         "level_text": "exhaustive over the stated small universe (exhaustive sub-space) + exploration of larger values",
@@ -300,7 +314,8 @@ CHECKS = {
     "C14": {
         "rule": "cache level, built with -race: 1-3 handlers are registered, the dispatcher runs, and a history of 1-14 notifications computed by "
                 "the reference model (inserts, modifies, deletes incl. GC and weak pruning; update2 and update encodings) is applied while "
-                "the first handler blocks on a harness channel: a drawn word over {apply next notification, release next event} decides how "
+                "the first handler blocks on a harness channel: a drawn word over {apply next notification, release next event, stop the "
+                "dispatcher with events outstanding and start it again (what a disconnect and the next connection do; at most 3 times)} decides how "
                 "far the dispatcher lags. Oracles per handler: number of events = number of applied row changes (a missing one is detected "
                 "with the dispatcher released and nothing else outstanding; 20 s bound), replaying the events from empty reproduces Rows() of "
                 "every table and the reference state, per row add -> update* -> delete, update.old = replayed previous state, update old != new, "
@@ -380,8 +395,12 @@ CHECKS = {
                 "by the inactivity probe; in the thorough tier half of the drawn scenarios are enumerated completely. Oracle after the plan "
                 "is exhausted: Connected() within 60 s; after a barrier transaction by the direct client, for every established monitor "
                 "cache = Database.List (no resurrected, no missing row); every own Transact that returned results left exactly one marker "
-                "row, every one that returned an error at most one. Non-trivial = cut after the 6th message (monitor set-up begun); "
-                "distinct = (scenario, direction, k, mode).",
+                "row, every one that returned an error at most one. TestC16ReconnectWindow (pause point monitor:reply of the verif hooks): "
+                "1-3 monitors, 0-3 foreign transactions, an unplanned reset of every proxied connection; the reconnecting client is parked "
+                "between the reply of its k-th restarted monitor (k drawn) and the application of that reply while 1-3 foreign "
+                "transactions commit (their notifications arrive on the new connection), is released, 0-2 more commit, and the cache "
+                "must converge to the database within 20 s of barriers. Non-trivial = cut after the 6th message (monitor set-up begun) "
+                "resp. a parked window with foreign commits inside; distinct = (scenario, direction, k, mode) resp. (monitors, k, foreign kinds).",
         "assumptions": COMMON_ASSUMPTIONS + [
             "enumerated scenarios run without the inactivity probe so that the fault-free message sequence is the same in every run up to the cut",
             "the keep-the-cache path of monitor_cond_since (found=true) is unreachable with libovsdb's server, which always answers found=false",
@@ -396,6 +415,7 @@ CHECKS = {
         "tests": [
             {"name": "TestC16Fixed", "kind": "plain", "quick": 8, "thorough": 16, "shards": {"quick": 8, "thorough": 16}},
             {"name": "TestC16", "quick": 320, "thorough": 1600},
+            {"name": "TestC16ReconnectWindow", "quick": 1200, "thorough": 40000},
         ],
     },
     "C17": {
@@ -426,12 +446,16 @@ CHECKS = {
         ],
     },
     "C18": {
-        "rule": "built with -race. TestC18Enumerated enumerates completely 18 ways an API call can fail (Monitor with option errors / no tables / "
-                "unknown table / unsupported method / cancelled context / not connected; Transact failing validation, on an unknown table, with "
+        "rule": "built with -race. The client talks to the server through the harness proxy, which can answer chosen methods with a JSON-RPC error "
+                "('unknown method' = what a server lacking the method says). TestC18Enumerated enumerates completely 23 ways an API call can fail "
+                "(Monitor with option errors / no tables / unknown table / unsupported method / cancelled context / not connected / refused by the "
+                "server / monitor_cond_since unknown and the monitor_cond fallback refused / both unknown and the monitor fallback refused / no monitor "
+                "method known; Transact answered with an RPC error, failing validation, on an unknown table, with "
                 "an expired context, not connected, rejected by the server; MonitorCancel; Echo against a mute server; Get miss; List with a "
-                "wrong or non-pointer type; Where without models; Create of a foreign model) x 7 follow-up calls (Disconnect+Connect, "
-                "Close+Connect, Monitor, Transact, Get, Echo, List) x monitor present or not = 252 combinations: every call returns within "
-                "20 s (contexts allow 2 s) and an epilogue Close, Connect, Echo, Monitor, Get of a seeded row succeeds. TestC18Concurrent: 2-4 "
+                "wrong or non-pointer type; Where without models; Create of a foreign model) x 9 follow-up calls (Disconnect+Connect, "
+                "Close+Connect, Monitor, Transact, Get, Echo, List, and Get/List with context.Background(): a cache read on an idle connected client "
+                "must not need a deadline to return) x monitor present or not = 414 combinations: every call returns within "
+                "20 s (bounded contexts allow 2 s) and an epilogue Close, Connect, Echo, Monitor, Get of a seeded row succeeds. TestC18Concurrent: 2-4 "
                 "goroutines run drawn lists of 4-14 calls (Get, List, Where.List, WhereCache.List, Cache().Rows, Transact, Monitor, MonitorCancel, "
                 "Echo, Disconnect, Connect, Close) on one client, with and without reconnect, while a writer commits transactions that keep "
                 "two columns of every row equal and a chaos goroutine cuts the connection 0-3 times through the proxy: no call may exceed "
@@ -464,7 +488,9 @@ CHECKS = {
                 "directories (byte-identical), with -extended on/off; the scratch module is vetted, compiled and tested: model.NewDatabaseModel("
                 "Schema(), FullDatabaseModel()) must validate, and for 40 reflectively filled values per table the generated CloneModel / "
                 "CloneModelInto / EqualsModel must agree with the generic laws (clone equal, no shared slice/map/pointer, Equal == field-wise "
-                "DeepEqual on pairs, false after any single-field change, argument untouched). Non-trivial = schema with >=1 enum and >=1 "
+                "DeepEqual on pairs, false after any single-field change, argument untouched; plus, per field, size-preserving and zero-valued variants - "
+                "a map key replaced by another holding the same or the zero value, one value zeroed, one more zero-valued key, a slice element zeroed / "
+                "dropped / a zero element appended, a pointee zeroed or the pointer cleared - on which Equal must agree with DeepEqual in both directions). Non-trivial = schema with >=1 enum and >=1 "
                 "collection/optional column (in-process) / every compiled package; distinct = hash of (column type signature, options).",
         "assumptions": COMMON_ASSUMPTIONS + [
             "two enum strings that collapse to one Go identifier are not generated together",
